@@ -41,7 +41,7 @@ def gen(rng: random.Random, tier: str, idx: int) -> dict:
     backend = "local" if rng.random() < 0.7 else "s3"
     sp = rng.choice(LOCAL_SPELLINGS if backend == "local" else S3_SPELLINGS)
     ops: List[dict] = []
-    n = rng.randint(4, 14)
+    n = rng.randint(4, 14 if tier == "quick" else 24)
     open_ids: List[int] = []
     nid = 0
     for j in range(n):
